@@ -328,6 +328,38 @@ class Extractor:
         if k == 'CXXOperatorCallExpr' and n.get('op') == '=' and len(n.get('args', [])) == 2:
             out.extend(self.expr_items(f, R, n['args'][1], subst, depth, dest=substitute(R.render(n['args'][0]), subst)))
             return out
+        if k == 'LambdaExpr':
+            return out      # defining a lambda performs no I/O; its body counts where it is called
+        if k == 'CXXOperatorCallExpr' and n.get('op') == '()' and n.get('args'):
+            # a call of a local lambda  `auto readWord = [&]{ return file.readUint(2); };  x = readWord();`
+            o_ = f.nodes[f.strip(n['args'][0], 'all')]
+            if o_['k'] == 'DeclRefExpr' and o_['decl'].get('dk') == 'local':
+                ini = local_init(f, o_['decl']['id'])
+                lam = None
+                if ini is not None:
+                    for x in [ini] + list(f.descendants(ini)):
+                        if f.nodes[x]['k'] == 'LambdaExpr':
+                            lam = f.nodes[x]
+                            break
+                if lam is not None:
+                    for a_ in n['args'][1:]:
+                        out.extend(self.expr_items(f, R, a_, subst, depth))
+                    body = [x for x in lam['ch'] if f.nodes[x]['k'] == 'CompoundStmt']
+                    st = [f.nodes[x] for x in f.nodes[body[0]]['ch']] if body else []
+                    if len(st) == 1 and st[0]['k'] == 'ReturnStmt' and st[0]['ch'] and not lam.get('lparams'):
+                        inner = self.expr_items(f, R, st[0]['ch'][0], subst, depth, dest=dest, destdecl=destdecl)
+                        # what is done with the lambda's result at the call site happens to the value it read
+                        extra = self.post_transform(f, R, n['id'])
+                        if extra:
+                            for it_ in inner:
+                                if it_[0] == 'io' and 'post' in it_[1]:
+                                    it_[1]['post'] = list(it_[1]['post'] or []) + extra
+                        out.extend(inner)
+                        return out
+                    inner = self.stmt(f, R, body[0], subst, depth) if body else []
+                    if inner:
+                        out.append(('loop', None, None, inner, n['id'], f))      # a lambda the extractor does not inline: unknown shape
+                    return out
         if k == 'ConditionalOperator':
             c = self.expr_items(f, R, n['cond'], subst, depth)
             a = self.expr_items(f, R, n['lhs'], subst, depth, dest)
